@@ -1053,6 +1053,24 @@ def x_dump_file(data=None, path=None, want_dis=True, max_code=None, route="load_
                     d["instrs_gi"] = {"instrs": [instr_to_dict(i, opc, py2file, cmp_op) for i in top.get_instructions(c)]}
                 except Exception as e:
                     d["instrs_gi"] = {"err": "%s: %s" % (type(e).__name__, e)}
+        # the fourth: the list Bytecode.disassemble_bytes() RETURNS (what xasm-style tools post-process), per format
+        if tuple(version) >= (2, 1):
+            import io as _io
+            cmp_op = list(getattr(opc, "cmp_op", ()))
+            for c, d in zip(codes, r["dis"]):
+                if "instrs" not in d or len(d["instrs"]) > 300:
+                    continue
+                for fmt in ("classic", "asm"):
+                    try:
+                        b = x.bytecode.Bytecode(c, opc, dup_lines=dup_lines)
+                        lst = b.disassemble_bytes(c.co_code, varnames=c.co_varnames, names=c.co_names, constants=c.co_consts,
+                                                  cells=b._cell_names, line_starts=b._linestarts, file=_io.StringIO(), asm_format=fmt,
+                                                  filename="", show_source=False, first_line_number=getattr(c, "co_firstlineno", None),
+                                                  exception_entries=b.exception_entries, localsplusnames=b._localsplusnames)
+                        if isinstance(lst, list):
+                            d["instrs_ret_" + fmt] = {"instrs": [instr_to_dict(i, opc, py2file, cmp_op) for i in lst]}
+                    except Exception as e:
+                        d["instrs_ret_" + fmt] = {"err": "%s: %s" % (type(e).__name__, e)}
         # the third way to the instructions of a code object: xdis.lineoffsets.LineOffsetInfo(opc, code).instructions
         if tuple(version) >= (2, 1):
             cmp_op = list(getattr(opc, "cmp_op", ()))
